@@ -1,7 +1,10 @@
 import KafVerif.Model.SqlProxy
 import KafVerif.Prelude.Driver
 /-! Line-protocol driver for the SQL proxy model (C37).
-`conn <ttl> <max> <allow hex,…|-> <deny hex,…|->`, `q <hex>` -> `fwd <hex>` | `deny`;
+`conn <ttl> <max> <allow hex,…|-> <deny hex,…|->`,
+`q <hex>` -> `fwd <hex> view=<topic hex,…|-> listed=<0|1> kind=<k>` | `deny`, where view/listed are
+the UPSTREAM model's view (`upstreamView`) of the forwarded text and `k` says which branch of the
+upstream answers (cat, set, showtopics, showparts, describe, select, explain, err);
 `oq <hex>` runs the pre-fix handler. -/
 open KafVerif KafVerif.SqlParser KafVerif.SqlProxy
 
@@ -12,6 +15,28 @@ structure DS where
 
 def parseList (s : String) : Option (List Bytes) :=
   if s = "-" then some [] else (s.splitOn ",").mapM fromHex
+
+/-- `goEnv` with the parser model evaluated once for the text at hand (same function, memoised) -/
+def envFor (q : Bytes) : Env × GoResult Q :=
+  let pr := parse q
+  let r := queryTopics pr
+  ({ P := fun x => if x == q then r else goEnv.P x, lowerU := goEnv.lowerU }, pr)
+
+def kindOf (e : Env) (pr : GoResult Q) (q : Bytes) : String :=
+  if upCatalog e.lowerU (upEntry q) then "cat"
+  else if upSet e.lowerU (upEntry q) then "set"
+  else match (if upEntry q == q then pr else parse (upEntry q)) with
+    | .ok .showTopics => "showtopics"
+    | .ok (.showPartitions _) => "showparts"
+    | .ok (.describe _) => "describe"
+    | .ok (.select _) => "select"
+    | .ok (.explain _) => "explain"
+    | _ => "err"
+
+def showFwd (e : Env) (pr : GoResult Q) (t : Bytes) : String :=
+  let v := upstreamView e t
+  let ts := if v.1.isEmpty then "-" else ",".intercalate (v.1.map toHex)
+  "fwd " ++ toHex t ++ " view=" ++ ts ++ " listed=" ++ (if v.2 then "1" else "0") ++ " kind=" ++ kindOf e pr t
 
 def stepLine (d : DS) (ws : List String) : DS × String :=
   match ws with
@@ -25,8 +50,9 @@ def stepLine (d : DS) (ws : List String) : DS × String :=
   | ["q", hx] =>
     match fromHex hx with
     | some q =>
-      let (c, r) := handle modelEnv d.acl d.cache q false
-      ({ d with cache := c }, match r with | some t => "fwd " ++ toHex t | none => "deny")
+      let (e, pr) := envFor q
+      let (c, r) := handle e d.acl d.cache q false
+      ({ d with cache := c }, match r with | some t => showFwd e pr t | none => "deny")
     | none => (d, "bad-op")
   | ["oq", hx] =>
     match fromHex hx with
